@@ -366,7 +366,7 @@ def _evaluate(ck, set_name, key, sc, mode=None, normalize=False, tag=None):
 
 
 # ---------------------------------------------------------------- table shapes
-def _shape(si, variant=0):
+def _shape(si, variant=0, pk_all=False):
     """fixed table sets; every table has id / code_2 / code / note (types differ per table) plus one column of its own"""
     P, D, B, K = (0, 0), (1, 0), (2, 0), (3, 0)
     shapes = [
@@ -383,7 +383,7 @@ def _shape(si, variant=0):
         # code_2 precedes code: a prefix / substring match of column names picks the wrong one
         cols = [("id", (ti + variant) % 2, 1 if ti % 2 == 0 else 0), ("code_2", (ti + variant) % 4, 0), ("code", 2 + (ti + variant) % 3, (2 * ti + variant) % 5),
                 ("note", 6 + ti % 2, 0), (own, 4 + ti % 2, 3 if ti == 1 else 0)]
-        out.append(_Table(s, n, sp, cols, layout=(ti + variant) % 2, pk_clause=(ti + variant) % 3 == 0))
+        out.append(_Table(s, n, sp, cols, layout=(ti + variant) % 2, pk_clause=pk_all or (ti + variant) % 3 == 0))
     return out
 
 
@@ -643,11 +643,14 @@ def _set_readd(ck):
         ["add", ("drop", "extra"), ("add", "extra")],
         ["fk-1", ("rename", "id", "ident"), "add"],
         ["fk-1", ("drop", "id"), "fk-n-named"],
+        # primary_key follows the rename also when a MODIFY respelled the column before
+        [("modify", "[ID]"), ("rename", "id", "ident"), "index"],
+        [("rename", '"ID"', "ident"), ("rename", "IDENT", "id3"), ("add", "id")],
     ]
     for pi, prog in enumerate(progs):
         for si in ((1, 2, 3, 5) if not ck.quick() else (1 + pi % 3,)):
             for ti in range(len(_shape(si))):
-                tables = _shape(si, variant=n)
+                tables = _shape(si, variant=n, pk_all=True)
                 t = tables[ti]
                 sc = _Script(tables)
                 for j, step in enumerate(prog):
